@@ -113,9 +113,13 @@ def schema_lines(name, decls):
 
     def emit(ds):
         for d in ds:
-            flags = sum(FLAGBITS[f] for f in d["flags"])
+            flags = sum(FLAGBITS[f] for f in d["flags"] if f != "SIMPLE")
             cb = sum(CBBITS[c] for c in d["cb"])
             ty = d["type"]
+            if "SIMPLE" in d["flags"]:
+                # the caller's variable starts at 0 / 0.0 / false / NULL (the driver's storage)
+                lines.append("o s%s %s %d %d ~" % (ty, enc(d["name"]), flags, cb))
+                continue
             if ty == "sec":
                 lines.append("o sec %s %d %d" % (enc(d["name"]), flags, cb))
                 emit(d["sub"])
